@@ -82,6 +82,35 @@ func (s *Symbolizer) frameOf(c *Ctx) *frame {
 			for _, b := range mc.Bindings {
 				fr.free = append(fr.free, s.sym(pf, b))
 			}
+		} else if len(c.Fn.FreeVars) > 0 {
+			// a call through a function-typed parameter that the expanded CFG resolved to a closure created further
+			// up (a bound method or literal passed as an argument): its free variables are bound where it was made
+			v, fc := call.Value, c.Parent
+			for depth := 0; depth < 5 && fc != nil; depth++ {
+				if mc, ok := v.(*ssa.MakeClosure); ok {
+					if mc.Fn == ssa.Value(c.Fn) {
+						mf := s.frameOf(fc)
+						for _, b := range mc.Bindings {
+							fr.free = append(fr.free, s.sym(mf, b))
+						}
+					}
+					break
+				}
+				pa, ok := v.(*ssa.Parameter)
+				if !ok || fc.CallNode == nil || fc.CallNode.Call == nil || fc.Parent == nil {
+					break
+				}
+				idx := -1
+				for i, p := range fc.Fn.Params {
+					if p == pa {
+						idx = i
+					}
+				}
+				if idx < 0 || idx >= len(fc.CallNode.Call.Args) {
+					break
+				}
+				v, fc = fc.CallNode.Call.Args[idx], fc.Parent
+			}
 		}
 		fr.parent = pf
 	} else if c.Parent != nil && c.CallNode != nil && c.CallNode.Call != nil && c.Callback {
